@@ -12,10 +12,10 @@ from vlib.snippet import Snippet, Undecided
 from units.C16 import cpython
 
 MINORS = (7, 8, 9, 10, 11)
-NAMES = ['POP_TOP', 'PRINT_EXPR', 'COMPARE_OP', 'ROT_TWO', 'SWAP', 'DUP_TOP', 'COPY', 'PUSH_NULL']
+NAMES = None   # every opcode of the interpreter whose stack effect does not depend on its argument
 PROBE = r'''
 import dis, json, opcode
-names = %r
+names = %r or sorted(dis.opmap)
 out = {}
 caches = getattr(opcode, '_inline_cache_entries', None)
 for n in names:
@@ -110,7 +110,8 @@ def sn_copy(src, f, common):
     sn.rw('R6', r'\bext_abort\(\)', 'ext_abort::<()>()')
     # R5: write_instr<C: Into<u8>> is monomorphised to u8; `impl From<Enum> for u8` of impl_u8_enum! is `op as u8`
     sn.rw('R5', r'self\.write_instr\(((?:\w+::)?\w+)\)', r'self.write_instr(\1 as u8)', expect='+')
-    sn.rw('R5', r'\bPOP_TOP as u8', 'CommonOpcode::POP_TOP as u8')
+    # bare names are variants of CommonOpcode (`use erg_common::opcode::CommonOpcode::*`)
+    sn.rw('R5', r'self\.write_instr\(([A-Z][A-Z_0-9]*) as u8\)', r'self.write_instr(CommonOpcode::\1 as u8)')
     sn.rw('R9', r'self\.write_bytes\(&\[0; (\d+)\]\)', r'self.write_bytes(w_zeros(\1).as_slice())')
     # the comparison operator of _emit_compare_op: only its number matters
     sn.rw('R5', r'op: CompareOp\b', 'op: u8')
@@ -124,7 +125,8 @@ def add_emitters(run, unit, src, common, PRE, FRAME):
         raise Undecided("interpreters 3.8-3.11 are needed for the stack-effect table of the leaf emitters")
     unit.raw("} // impl PyCodeGenerator\n" + spec_table(tab))
     run.extra["leaf_emitters_external_table"] = {str(m): tab[m] for m in sorted(tab)}
-    for (crate_file, en) in (('crates/erg_common/opcode311.rs', 'Opcode311'), ('crates/erg_common/opcode310.rs', 'Opcode310')):
+    for (crate_file, en) in (('crates/erg_common/opcode311.rs', 'Opcode311'), ('crates/erg_common/opcode310.rs', 'Opcode310'),
+                             ('crates/erg_common/opcode309.rs', 'Opcode309'), ('crates/erg_common/opcode308.rs', 'Opcode308')):
         text, sp = enum_from_macro(_S(run.repo, crate_file), en)
         unit.raw("// generated from the extracted macro call impl_u8_enum!{%s; ..} (%s): the enum it expands to\n" % (en, crate_file) + text, label='enum ' + en)
     unit.raw("impl PyCodeGenerator {\n")
